@@ -5,7 +5,7 @@ import math
 import numpy as np
 from scipy.special import stdtr
 
-from .. import cases, cmp, corpus, gen, sim, expect, transforms as T
+from .. import cases, cmp, corpus, gen, sim, expect, w4, transforms as T
 from ..harness import CaseResult
 from ..probe import read
 
@@ -38,8 +38,8 @@ REQUIRED_REACH = ["t_stats", "p_vals", "antisymmetry", "self_zero", "index_sets"
                   "class:transformed", "class:subtotal_selected", "class:only_larger=False",
                   "class:only_larger=True", "class:indices_read_first"]
 BATCH = 20
-RULE = RULE + corpus.RULE_SUFFIX
-REQUIRED_REACH = list(REQUIRED_REACH) + ["class:corpus"]
+RULE = RULE + corpus.RULE_SUFFIX + w4.RULE_SUFFIX
+REQUIRED_REACH = list(REQUIRED_REACH) + ["class:corpus", "class:w4"]
 TECHNIQUE = TECHNIQUE + corpus.TECHNIQUE_SUFFIX
 UNIT_TIMEOUT_S = 40
 ALPHAS = [None, [0.05], [0.05, 0.2], [0.3, 0.01], 0.1]
@@ -48,12 +48,14 @@ ALPHAS = [None, [0.05], [0.05, 0.2], [0.3, 0.01], 0.1]
 def units(tier, seed):
     n = 400 if tier == "quick" else 20000
     # W1 synthetic surveys, then W3: the fixture corpus under the intrinsic relations
-    return [{"i": i, "seed": seed} for i in range(n)] + corpus.units(tier, seed)
+    return [{"i": i, "seed": seed} for i in range(n)] + corpus.units(tier, seed) + w4.units(tier, seed)
 
 
 def make_case(unit):
     if "corpus" in unit:
         return corpus.make_case(ID, unit)
+    if "w4" in unit:
+        return w4.make_case(ID, unit)
     i = unit["i"]
     g = gen.G("C13/%s/%s" % (unit["seed"], i))
     mode = MODES[i % len(MODES)]
@@ -143,6 +145,8 @@ def two_sided_p(t, df):
 def check_case(case):
     if "fixture" in case:
         return corpus.check_case(ID, case)
+    if case.get("w4"):
+        return w4.check_case(ID, case)
     res = CaseResult()
     L = cases.realize(case)
     o = L.oracle
